@@ -634,4 +634,6 @@ def replay_full(item):
 def _close(a, b, rel=LL_REL):
     if a != a or b != b:
         return False
+    if abs(a) == float('inf') or abs(b) == float('inf'):
+        return a == b
     return abs(a - b) <= rel * max(1.0, abs(a), abs(b))
